@@ -8,6 +8,7 @@ import (
 	"errors"
 	"fmt"
 	"io"
+	"math"
 	"reflect"
 	"slices"
 	"strings"
@@ -30,6 +31,9 @@ func (d *devmodOwnerModule) HandleInfo(ctx context.Context, messageName string, 
 		var numModules int
 		if err := cbor.NewDecoder(messageBody).Decode(&numModules); err != nil {
 			return err
+		}
+		if numModules < 0 || numModules > math.MaxUint16 {
+			return fmt.Errorf("invalid devmod nummodules value: %d", numModules)
 		}
 		d.Modules = make([]string, numModules)
 		return nil
@@ -71,6 +75,9 @@ func (d *devmodOwnerModule) parseModules(messageBody io.Reader) error {
 		// indicate the start index of the full module array to populate.
 		if idx := slices.Index(d.Modules, ""); idx != -1 && chunk.Start != idx {
 			chunk.Start = idx
+		}
+		if chunk.Len > len(d.Modules)-chunk.Start {
+			return fmt.Errorf("invalid devmod module chunk: more modules than announced by nummodules")
 		}
 
 		copy(d.Modules[chunk.Start:chunk.Start+chunk.Len], chunk.Modules)
